@@ -39,7 +39,7 @@ Qed.
 
 Lemma model_step_code auto lg h st : snd (fst (model_step auto lg h st)) <> 9%Z.
 Proof.
-  unfold model_step. destruct (primary (s_act st)) as [a|]; [|cbn; discriminate].
+  unfold model_step. destruct (primary auto (s_act st)) as [a|]; [|cbn; discriminate].
   pose proof (step_code h a) as H. destruct (step h a) as [h1 o]. cbn [fst snd] in H.
   destruct (auto && follows_with_poll (s_act st) && Z.eqb (res_code (o_res o)) 0).
   - destruct (step h1 APoll) as [h2 o2]. cbn [fst snd]. exact H.
